@@ -33,6 +33,8 @@ pub struct DeletionQuery {
     pub updated_nodes: Vec<Node>,
     pub edges: Vec<EdgeDelete>,
     pub edge_log: Vec<EdgeDeletionEntry>,
+    //modification date of the updated nodes before the update
+    pub updated_nodes_previous_date: Vec<i64>,
 }
 impl DeletionQuery {
     pub fn build(
@@ -48,6 +50,7 @@ impl DeletionQuery {
             updated_nodes: Vec::new(),
             edges: Vec::new(),
             edge_log: Vec::new(),
+            updated_nodes_previous_date: Vec::new(),
         };
         for del in &deletion.deletions {
             let src = parameters
@@ -89,6 +92,7 @@ impl DeletionQuery {
                         }
                     }
                     let mut node = *node;
+                    deletion_query.updated_nodes_previous_date.push(node.mdate);
                     node.mdate = date;
                     deletion_query.updated_nodes.push(node);
                 }
@@ -128,6 +132,17 @@ impl DeletionQuery {
         for log in &self.node_log {
             daily_log.set_need_update(log.room_id, &log.entity, log.mdate);
             daily_log.set_need_update(log.room_id, &log.entity, log.deletion_date);
+        }
+        //a reference deletion moves the source node to the deletion day
+        for (node, previous_date) in self
+            .updated_nodes
+            .iter()
+            .zip(&self.updated_nodes_previous_date)
+        {
+            if let Some(room_id) = &node.room_id {
+                daily_log.set_need_update(*room_id, &node._entity, *previous_date);
+                daily_log.set_need_update(*room_id, &node._entity, node.mdate);
+            }
         }
     }
 }
